@@ -28,7 +28,9 @@ Record obs := mkO {
   o_byh : list (option N);           (* hash at heights 0 .. height+3 *)
   o_load : list bool;                (* LoadBlock(h) works, heights 0 .. height *)
   o_hdr : list (option N);           (* header by height, heights 0 .. height+3 *)
-  o_tx : list (option Z);            (* per block of the tree: height recorded for its transaction *)
+  o_tx : list (option Z);            (* per block of the tree: height recorded for its transactions
+                                        (None = no transaction of the block is indexed; Some (-2) = the
+                                        index records of the block's transactions disagree) *)
   o_td : list (option Z);            (* per block: stored total difficulty *)
   o_stored : list bool;              (* per block: loadable by hash *)
   o_state : bool;                    (* every state key read at the tip's state hash has the expected value *)
